@@ -193,6 +193,7 @@ class ServerSet(object):
     self._on_leave = on_leave or noop
     self._notification_queue = Queue(0)
     self._watching = False
+    self._watched_czxid = None
     self._cb_blocker = self._CallbackBlocker()
     self._member_filter = member_filter or true
     self._member_factory = member_factory or Member.from_node
@@ -267,9 +268,16 @@ class ServerSet(object):
     # stat == None -> the node was deleted (or doesnt exist)
     if stat is None:
       self._watching = False
+      self._watched_czxid = None
       self._send_all_removed()
-    elif not self._watching:
+    elif not self._watching or stat.czxid != self._watched_czxid:
+      if self._watching:
+        # The path was deleted and re-created before the deletion was seen.
+        # The children watch on the old path is gone and every member known
+        # so far lived under the old path.
+        self._send_all_removed()
       self._watching = True
+      self._watched_czxid = stat.czxid
       self._begin_watch()
 
   def _begin_watch(self):
